@@ -124,3 +124,44 @@ CONTRACTS.update({
                           '_ylen == len(self.B.ladj[1 + _it])', 'yielded[1] == self.B.ladj[1 + _it][_yt]']},
     },
 })
+
+
+# ---- the remaining views and constructors ---------------------------------------------------------------------------------------------
+_DINV = __import__('contracts.graphs_adt', fromlist=['D_INV']).D_INV
+CONTRACTS.update({
+    # neighbour generators: refused (at the first value requested) iff the vertex is not in the graph; otherwise exactly the stored
+    # list, in order - sorted and duplicate-free by the class invariant
+    (G, 'Graph.neighbors'): {
+        'property': ['C16'], 'params': {'u': 'int'}, 'raises': {'ValueError': 'not (1 <= u and u <= self.n)'},
+        'yields_at': {0: ['_ylen == len(self.adjlist[u])', 'yielded == self.adjlist[u][_yt]', '(u, yielded) in self.edgeset']},
+        'ensures': ['final("_ytotal") == len(self.adjlist[u])'],
+    },
+    (G, 'DirectedGraphRep.predecessors'): {
+        'property': ['C16'], 'source': (G, 'DirectedGraph.predecessors'), 'params': {'self': 'obj:DirectedGraphRep', 'u': 'int'},
+        'raises': {'ValueError': 'not (1 <= u and u <= self.n)'},
+        'yields_at': {0: ['_ylen == len(self.pred[u])', 'yielded == self.pred[u][_yt]', '(yielded, u) in self.edgeset']},
+        'ensures': ['final("_ytotal") == len(self.pred[u])'],
+    },
+    (G, 'DirectedGraphRep.successors'): {
+        'property': ['C16'], 'source': (G, 'DirectedGraph.successors'), 'params': {'self': 'obj:DirectedGraphRep', 'u': 'int'},
+        'raises': {'ValueError': 'not (1 <= u and u <= self.n)'},
+        'yields_at': {0: ['_ylen == len(self.succ[u])', 'yielded == self.succ[u][_yt]', '(u, yielded) in self.edgeset']},
+        'ensures': ['final("_ytotal") == len(self.succ[u])'],
+    },
+    (G, 'DirectedGraphRep.__init__'): {
+        'property': ['C16'], 'source': (G, 'DirectedGraph.__init__'),
+        'params': {'self': 'newobj:DirectedGraphRep', 'n': 'int', 'name': 'optstr'}, 'raises': {'ValueError': 'n < 0'},
+        'ghost_code': [('self.edgeset = set()', 'self.idxs = lam2(lambda x, w: 0)\nself.idxp = lam2(lambda x, w: 0)')],
+        'ensures': ['self.n == n', 'self.m == 0', 'self.still_a_dag', 'forall(lambda x, y: not ((x, y) in self.edgeset))'] + _DINV,
+    },
+    (G, 'GraphNamed.empty_graph'): {
+        'property': ['C15', 'C16'], 'source': (G, 'Graph.empty_graph'), 'params': {'cls': 'class:Graph', 'n': 'int'},
+        'raises': {'ValueError': 'n < 0'}, 'returns': 'obj:Graph',
+        'ensures': [c.replace('G.', 'result.') for c in _INV] + ['result.n == n', 'result.m == 0', 'forall(lambda x, y: not ((x, y) in result.edgeset))'],
+    },
+    (G, 'GraphNamed.null_graph'): {
+        'property': ['C15', 'C16'], 'source': (G, 'Graph.null_graph'), 'params': {'cls': 'class:Graph'},
+        'raises': {}, 'returns': 'obj:Graph',
+        'ensures': [c.replace('G.', 'result.') for c in _INV] + ['result.n == 0', 'result.m == 0', 'forall(lambda x, y: not ((x, y) in result.edgeset))'],
+    },
+})
